@@ -198,7 +198,12 @@ def main(argv):
                 diff = compare(brs[k], vrs[k], idb, idv, a, [F(x) for x in gs['box']])
                 summ['states_compared'] += 1
                 if diff is None:
-                    pa, pb = canon_pairs(brs[k], idb), canon_pairs(vrs[k], idv)
+                    try:
+                        pa, pb = canon_pairs(brs[k], idb), canon_pairs(vrs[k], idv)
+                    except KeyError as ex:
+                        # a pair of the real list names a (colour, frozen, slot) that is no particle of the run
+                        pa, pb = [], []
+                        diff = 'a pair list names a particle that does not exist: (colour, frozen, slot) = %s' % (ex.args[0],)
                     summ['pair_lists_compared'] += 1
                     summ['pairs_total'] += len(pa)
                     if pa != pb:
